@@ -266,7 +266,8 @@ fn witness_shape(p: &MapProofM, r: &RefNode, level: &str) -> Option<String> {
         }
     }
     if !tree.false_claims(&p.master_proof).is_empty() {
-        return Some(format!("{level}: {}", mk::witness_shape(tree, &p.master_proof)));
+        let _ = level;
+        return Some(mk::witness_shape(tree, &p.master_proof).to_string());
     }
     for (k, s) in &p.sub_proofs {
         match r {
@@ -625,8 +626,8 @@ pub fn judge(w: &MapWorld, m: &MapProofM, class: &str, mon: &mut Monitor) -> Ver
                 .filter(|x| p.contains(&MKTreeNode::new((*x).clone())).is_ok())
                 .map(hex::encode)
                 .collect();
-            crate::viol::report(mon, &format!("C09 MKMapProof verifies against the committed root but lists a non-committed entry: {shape}"), || format!(
-                    "MKMapProof::verify = Ok and compute_root() equals the committed map root, yet {} of {} listed entries are false: {}; contains() = Ok for non-committed node(s) [{}]; mutation class {class}",
+            crate::viol::report(mon, &format!("C09 verified Merkle proof vouches for a non-committed entry: {shape}"), || format!(
+                    "[MKMapProof] MKMapProof::verify = Ok and compute_root() equals the committed map root, yet {} of {} listed entries are false: {}; contains() = Ok for non-committed node(s) [{}]; mutation class {class}",
                     fc.len(),
                     total,
                     fc[0],
@@ -670,7 +671,7 @@ fn false_claims_top(m: &MapProofM, top: &MapCtx, out: &mut Vec<String>, total: &
 
 fn witness_shape_top(m: &MapProofM, top: &MapCtx) -> Option<String> {
     if !top.master.false_claims(&m.master_proof).is_empty() {
-        return Some(format!("master proof: {}", mk::witness_shape(&top.master, &m.master_proof)));
+        return Some(mk::witness_shape(&top.master, &m.master_proof).to_string());
     }
     for (k, s) in &m.sub_proofs {
         match top.find(k.pair()) {
